@@ -1,6 +1,6 @@
 import StoneVerif.Model.Rt.SpecC06
 /-! Helper lemmas about the RT decoder (`Model/Rt/Decode.lean`) used by the C06 property theorems. -/
-namespace StoneVerif.Rt
+namespace StoneVerif.Rt.DecL
 
 /-! ### Small facts about the result type -/
 
@@ -1154,4 +1154,4 @@ end
 
 end
 
-end StoneVerif.Rt
+end StoneVerif.Rt.DecL
